@@ -136,7 +136,7 @@ class RSAKey(PKey):
         return m
 
     def verify_ssh_sig(self, data, msg):
-        sig_algorithm = msg.get_text()
+        sig_algorithm = self._get_sig_algorithm(msg)
         if sig_algorithm not in self.HASHES:
             return False
         key = self.key
